@@ -238,7 +238,7 @@ def run(rep, tier, seed):
     items += [("psfull-bucket", (1, b), None) for b in psfull.buckets(1) if b[0] != "afn"]
     nseeds, max_lines = 2, 0
   else:
-    nseeds, max_lines = 20, 400
+    nseeds, max_lines = 10, 200
   for pid, src in seed_programs(nseeds):
     for mid, msrc in mutants(src):
       items.append(("mutant", pid + "|" + mid, msrc))
@@ -250,7 +250,8 @@ def run(rep, tier, seed):
     items += expr_items(1, True, ("mod",))
     pats = psexpr.patterns(1, ("na", "nb", "enum", "inst"))
   else:
-    items += expr_items(1, False, ("mod", "fn")) + [it for it in expr_items(2, True, ("mod",)) if it[1][1][0][0].startswith("expr2:")]
+    items += expr_items(1, False, ("mod", "fn")) + [it for it in expr_items(2, True, ("mod",))
+                                                    if it[1][1][0][0].startswith(("expr2:list", "expr2:dict", "expr2:set", "expr2:tuple", "expr2:call", "expr2:sub"))]
     pats = psexpr.patterns(2)
   n_expr = sum(len(it[1][1]) for it in items if it[0] == "exprpack")
   for pid, src in pats:
